@@ -56,7 +56,7 @@ def sweep_one(arg):
     key = db.find_one(re.escape(name), kinds=('fn',))
     rec = db.body(key)
     crate = rec['crate']
-    arg_t = db.ty(crate, rec['body']['locals'][1]['ty'])
+    arg_ts = [db.ty(crate, rec['body']['locals'][1]['ty'])]
     t0 = time.time()
     res = None; last = ''
     for depth, mlen in ((3, 2), (2, 1), (1, 1)):
@@ -65,9 +65,9 @@ def sweep_one(arg):
 
         def body(ex, depth=depth, mlen=mlen):
             g = symgen.SymGen(ex, db, crate, max_depth=depth, max_len=mlen)
-            v = g.of(arg_t)
+            vs = [g.of(t) for t in arg_ts]
             ex.log.append(('shape', list(g.shape)))
-            return ex.call_key(key, [v])
+            return ex.call_key(key, vs)
         try:
             res = explore(ex, body, max_paths=20000, budget_s=budget)
             break
@@ -162,6 +162,10 @@ def absurd_messages(rep, db, tier):
         (r'.*::v2::leader_proposal::ProposalJustification::view', CR),
         (r'.*::v2::consensus::ChonkyMsg::view_number', CR),
         (r'.*::consensus::ConsensusMsg::label', CR),
+        # the block range a gossip peer announces (push_block_store_state) is used unauthenticated: verify(), then contains() in the fetch queue
+        (r'zksync_consensus_engine::block_store::BlockStoreState::verify', 'zksync_consensus_engine'),
+        (r'zksync_consensus_engine::block_store::BlockStoreState::contains', 'zksync_consensus_engine'),
+        (r'zksync_consensus_engine::block_store::Last::number', 'zksync_consensus_engine'),
     ]
     for pat, crate in targets:
         try:
@@ -169,17 +173,16 @@ def absurd_messages(rep, db, tier):
         except KeyError as e_:
             rep.add(Obligation(f'absurd {pat}', 'inconclusive', str(e_))); continue
         rec = db.body(key)
-        arg_t = db.ty(rec['crate'], rec['body']['locals'][1]['ty'])
-        by_ref = arg_t['info'].get('k') == 'ref'
+        arg_ts = [db.ty(rec['crate'], rec['body']['locals'][i]['ty']) for i in range(1, rec['body']['arg_count'] + 1)]
         ex = Exec(db, loop_bound=40)
         install(ex)
         gen_opaque(ex)
 
         def body(ex):
             g = symgen.SymGen(ex, db, rec['crate'], max_depth=2, max_len=1)
-            v = g.of(arg_t)
+            vs = [g.of(t) for t in arg_ts]
             ex.log.append(('shape', list(g.shape)))
-            return ex.call_key(key, [v])
+            return ex.call_key(key, vs)
         short = rec['name'].split('::messages::')[-1]
         try:
             res = explore(ex, body, max_paths=20000, budget_s=120)
@@ -195,7 +198,7 @@ def absurd_messages(rep, db, tier):
             k = f'absurd-panic:{short.split("::")[-2]}::{short.split("::")[-1]}:{val[0].replace("assertion failed: ", "")[:40]}'
             if any(v.key == k for v in rep.violations) or any(v.key == k for _, v in rep.known_hits): continue
             shape = next((x[1] for x in log if x[0] == 'shape'), [])
-            src = replay_view(short, shape)
+            src = replay_view(short, shape) if 'block_store' not in rec['name'] else replay_range(rec['name'].split('::')[-1])
             path = None; repro = None
             if src:
                 rr = replay.run_replay(f'c10_{len(rep.violations) + len(rep.known_hits)}', src); rep.replayed += 1
@@ -222,6 +225,26 @@ fn replay() {
     assert!(r.is_ok(), "view() panicked on a certificate for view u64::MAX");
 }
 '''
+
+
+def replay_range(method):
+    call = {'contains': 'st.contains(BlockNumber(u64::MAX)); let _ = st.contains(BlockNumber(0))', 'verify': 'st.verify()', 'number': 'st.last.as_ref().map(|l| l.number())'}.get(method)
+    if call is None: return None
+    return '''// generated by /verif/lib/props/c10.py — replay: a peer-announced block range with extreme numbers (property C10)
+use zksync_consensus_engine::{BlockStoreState, Last};
+use zksync_consensus_roles::validator::BlockNumber;
+#[test]
+fn replay() {
+    for (first, last) in [(0u64, u64::MAX), (u64::MAX, u64::MAX), (u64::MAX, 0), (1, u64::MAX - 1)] {
+        let st = BlockStoreState { first: BlockNumber(first), last: Some(Last::PreGenesis(BlockNumber(last))) };
+        let r = std::panic::catch_unwind(move || { let _ = %s; });
+        assert!(r.is_ok(), "BlockStoreState::%s panicked on first={first} last={last}");
+        let st = BlockStoreState { first: BlockNumber(first), last: None };
+        let r = std::panic::catch_unwind(move || { let _ = %s; });
+        assert!(r.is_ok(), "BlockStoreState::%s panicked on first={first} last=None");
+    }
+}
+''' % (call, method, call, method)
 
 
 def run(rep, db, tier, seed):
